@@ -146,11 +146,17 @@ pub fn program(ch: &mut Choices, o: &WildOpts) -> (Vec<Line>, WildInfo) {
                         _ => ins("jal", vec![r(RA), Opd::L(target)]),
                     });
                 }
-                _ => {
+                _ => match ch.weighted(&[5, 2, 2]) {
                     // an ecall that does not exit
-                    body.push(ins("li", vec![r(A7), i(*ch.pick(&[1i64, 11, 5, 34]))]));
-                    body.push(ins("ecall", vec![]));
-                }
+                    0 => {
+                        body.push(ins("li", vec![r(A7), i(*ch.pick(&[1i64, 11, 5, 34]))]));
+                        body.push(ins("ecall", vec![]));
+                    }
+                    // a bare ecall: its number is whatever the paths reaching it left in a7
+                    1 => body.push(ins("ecall", vec![])),
+                    // a7 set without an ecall (possibly to an exit number)
+                    _ => body.push(ins("li", vec![r(A7), i(*ch.pick(&[10i64, 93, 1, 10]))])),
+                },
             }
         }
         // terminator
@@ -191,7 +197,7 @@ pub fn program(ch: &mut Choices, o: &WildOpts) -> (Vec<Line>, WildInfo) {
                 }
             }
         };
-        let kind = ch.weighted(&[4, 6, 2, 1, 1]);
+        let kind = ch.weighted(&[4, 6, 2, 1, 1, if o.c03_domain { 0 } else { 1 }]);
         match kind {
             // conditional branch then fall through
             1 => {
@@ -233,10 +239,11 @@ pub fn program(ch: &mut Choices, o: &WildOpts) -> (Vec<Line>, WildInfo) {
                     if tgt_block.map(|k| k <= bi).unwrap_or(false) {
                         info.back_branches += 1;
                     }
-                    term.push(if ch.chance(1, 4) {
-                        ins("jal", vec![r(ZERO), Opd::L(t)])
-                    } else {
-                        ins("j", vec![Opd::L(t)])
+                    term.push(match ch.weighted(&[6, 2, 1]) {
+                        1 => ins("jal", vec![r(ZERO), Opd::L(t)]),
+                        // a direct jump that links into a register other than ra (not a call)
+                        2 => ins("jal", vec![r(*ch.pick(&[5u8, 6, 28])), Opd::L(t)]),
+                        _ => ins("j", vec![Opd::L(t)]),
                     });
                     if bi + 1 < n_blocks && blocks[bi + 1].labels.is_empty() {
                         info.dead_block = true;
@@ -258,6 +265,23 @@ pub fn program(ch: &mut Choices, o: &WildOpts) -> (Vec<Line>, WildInfo) {
                     if bi + 1 < n_blocks && blocks[bi + 1].labels.is_empty() {
                         info.dead_block = true;
                     }
+                }
+            }
+            // a cascade of exits: an exit ecall whose dead fall-through code redefines a7 and
+            // joins a second ecall that the other path reaches with a known number
+            5 => {
+                let lx = format!("r{reg}_x{bi}");
+                term.push(ins("li", vec![r(A7), i(*ch.pick(&[10i64, 93]))]));
+                term.push(ins(ch.pick_str(&syn::BRANCH2), vec![r(syn::any_reg(ch)), Opd::L(lx.clone())]));
+                if ch.chance(1, 2) {
+                    term.push(ins("li", vec![r(A0), i(ch.int_in(0, 3))]));
+                }
+                term.push(ins("ecall", vec![]));
+                term.push(ins("li", vec![r(A7), i(*ch.pick(&[1i64, 10, 5, 93]))]));
+                term.push(Line::Label(lx));
+                term.push(ins("ecall", vec![]));
+                if reg > 0 {
+                    info.exit_in_function = true;
                 }
             }
             _ => {}
@@ -305,7 +329,9 @@ pub fn program(ch: &mut Choices, o: &WildOpts) -> (Vec<Line>, WildInfo) {
     (lines, info)
 }
 
-pub const FAULT_KINDS: [&str; 12] = [
+pub const FAULT_KINDS: [&str; 14] = [
+    "undefined-jal-other-link",
+    "label-at-eof-jal-other-link",
     "undefined-jump",
     "undefined-branch",
     "undefined-call",
@@ -345,6 +371,15 @@ fn inject_faults(
         let applied = match kind {
             "undefined-jump" => {
                 lines.insert(at, ins("j", vec![Opd::L(undef(ch.below(3)))]));
+                true
+            }
+            "undefined-jal-other-link" => {
+                lines.insert(at, ins("jal", vec![r(5), Opd::L(undef(ch.below(3)))]));
+                true
+            }
+            "label-at-eof-jal-other-link" => {
+                lines.insert(at, ins("jal", vec![r(6), Opd::L("the_end2".into())]));
+                lines.push(Line::Label("the_end2".into()));
                 true
             }
             "undefined-branch" => {
